@@ -75,16 +75,19 @@ func (ds *DirStructure) EnsureAbsPath(dirPath string) error {
 		return ds.Parent.EnsureAbsPath(dirPath)
 	}
 
-	// Resolve parent references before checking the scope.
+	// Resolve parent references before checking the scope. The root is
+	// compared in its cleaned form too: it may have been given with a trailing
+	// separator, which a cleaned path never has.
 	dirPath = filepath.Clean(dirPath)
+	rootPath := filepath.Clean(ds.Path)
 
 	// check if root
-	if dirPath == ds.Path {
+	if dirPath == rootPath {
 		return ds.ensure(nil)
 	}
 
 	// check scope
-	slashedPath := ds.Path
+	slashedPath := rootPath
 	// add slash to end
 	if !strings.HasSuffix(slashedPath, string(filepath.Separator)) {
 		slashedPath += string(filepath.Separator)
@@ -95,7 +98,7 @@ func (ds *DirStructure) EnsureAbsPath(dirPath string) error {
 	}
 
 	// get relative path
-	relPath, err := filepath.Rel(ds.Path, dirPath)
+	relPath, err := filepath.Rel(rootPath, dirPath)
 	if err != nil {
 		return fmt.Errorf("failed to get relative path: %w", err)
 	}
